@@ -231,6 +231,10 @@ def line_helpers_rule(ctx, prog):
                 got.add(repr(v))
         ok = got == {repr(SL), 'hit-line'}
         detail = 'the line length is one of %s, expected strlen(line) when there is no newline and newline - line otherwise' % sorted(got)
+    if not spans and not hits:
+        # the line end is found by a walk of its own (or in a helper): a shape this clause does not follow
+        raise AnalysisBroken('%s finds the end of the line without strchr/memchr/strcspn for the newline: the line-length '
+                             'clause is written for those' % GL.name)
     chk.ob('Q9', 'line-length-is-distance-to-newline', ok, GL.where(), GL.name, detail,
            how='strlen(line) without a newline, position of the first newline otherwise')
     # ---- copy of a line ---------------------------------------------------------------------------------------
